@@ -155,6 +155,8 @@ static void evloop_run(void *data, TickitRunFlags flags)
 #else
     pollret = poll(evdata->pollfds, evdata->nfds, msec);
 #endif
+    /* the callbacks invoked below are free to change errno */
+    int pollerrno = errno;
 
     tickit_evloop_invoke_timers(evdata->t);
 
@@ -183,7 +185,7 @@ static void evloop_run(void *data, TickitRunFlags flags)
         tickit_evloop_invoke_iowatch(evdata->pollwatches[idx], TICKIT_EV_FIRE, cond);
       }
     }
-    else if(pollret < 0 && errno == EINTR) {
+    else if(pollret < 0 && pollerrno == EINTR) {
       dispatch_signals(evdata);
     }
 
